@@ -7,6 +7,9 @@ baseline = json.load(open('/root/.vp/BASELINE.json'))['cmd'] if os.path.exists('
 SIM = "deterministic simulation with fault injection (seeded schedules over real olric+memberlist+redcon+go-redis in one synctest bubble)"
 NOTE = "Trusts the simulator seams (simnet, simsync, fake clock) and that the mechanical source rewrite preserves olric's semantics; 1 P per run; sampling."
 claimed = {
+ "C06": dict(level="exploration", design="DESIGN.md §8 C06",
+   text="Seeded search: conflicting copies with chosen timestamps (older / tie / newer than the newest existing copy, missing copies) are constructed with the replication commands themselves - DM.PUTENTRY and DM.DELENTRY RC on chosen backups, Puts that a cut-off backup misses, fragment packs delivered with INTERNAL.NODE.MOVEFRAGMENT to primary or backup owners in seeded order and repeatedly - in a stable cluster with read-repair on or off; a census of every copy before and after each step decides: Get returns a maximal-timestamp copy, a merge keeps the newest regardless of order and repetition, one Get with read-repair equalises the owner's and the existing backup copies, and changes nothing without it.",
+   note=NOTE + " No per-member clock skew exists in the simulator (one bubble clock): conflicts are constructed, not produced by skew. Copies on previous owners arise only in C03.", technique=SIM + "; copy-census oracle around planted conflicts"),
  "C14": dict(level="exploration", design="DESIGN.md §8 C14",
    text="Seeded search: 2-6 raw RESP subscriber connections spread over 1-3 members run scripts of SUBSCRIBE / PSUBSCRIBE / UNSUBSCRIBE / PUNSUBSCRIBE / disconnect over matching, non-matching, overlapping and duplicate channels and patterns while 1-3 publishers send uniquely numbered messages through different members; a reference subscription table (updated at acknowledgements, with invoke/return uncertainty) decides which deliveries are required, allowed and forbidden, checks per-publisher order, the PUBLISH return value, and PUBSUB CHANNELS/NUMSUB/NUMPAT at a quiescent tail.",
    note=NOTE, technique=SIM + "; reference subscription table over the recorded history"),
